@@ -19,14 +19,16 @@ Definition C01_statement (unit_ : Type) (wf : unit_ -> Prop) (render_unit : unit
       Proofs/ConformingCounters.v) - theorems about the generated functions of Gen/RuleChecks.v, Gen/MoreChecks.v, Gen/Counters.v,
       Gen/ScopeOps.v, for ANY remaining token list / statement length / context view under the stated conforming conditions
       (K = token kinds, tied to the text by conforming_text_kinds; P = columns, C09 / C03; V = the view at the statement, given):
-        whole checks (12): CheckTernary (K), CheckLabel (K), CheckLineLen (P), CheckManyInstructions (P),
+        whole checks (13): CheckTernary (K), CheckLabel (K), CheckLineLen (P), CheckManyInstructions (P),
                           CheckEmptyLine (V: statements and empty lines), CheckFunctionsCount (trace model),
                           CheckLineIndent (V: skipped statements, plain lines, `}` lines, `{` lines),
                           CheckExpressionStatement (K/shape: expr_pos_ok at every position, `return ;` / `return (...) ;` by return_ok),
                           CheckSpacing (shape: sp_ok at every position of the statement - loop invariant over the statement),
                           CheckIdentifierName (names over [a-z0-9_]; functions at global scope), CheckComment (K: no comment token in
                           the remaining tokens; or outside functions every comment first on its line / followed by blanks only),
-                          CheckLineCount (unconditional: its guard names a rule no primary has; V: the history holds primaries);
+                          CheckLineCount (unconditional: its guard names a rule no primary has; V: the history holds primaries),
+                          CheckPreprocessorIndent (P/shape/V: ppi_line_ok - `#` in column 1, global scope, directive name at the
+                          expected indentation for the given preproc.indent, one space before the argument);
         partial (5):      CheckControlStatement (translated part = 4 of its 6 codes: cs_pos_ok at every position of the control line,
                           every `(` closed before the line end - invariant of the scan and of check_nest; not at global scope),
                           CheckUtypeDeclaration (translated part, in headers), CheckBrace (TOO_MANY_LINES at <= 25 lines),
@@ -41,12 +43,12 @@ Definition C01_statement (unit_ : Type) (wf : unit_ -> Prop) (render_unit : unit
       tabs, identifiers (any letter or _ first except l L u U), single spaces, one-character operators, brackets, the listed atoms,
       line ends - is cut into exactly one token per lexeme, of the kind lx_type says, and NO diagnostic is recorded,
       (d) verdict / exit (C04).
-   Checks proved silent as a whole: 14 of 39 (the twelve above, CheckHeader, CheckPreprocessorProtection).
-   TESTED ONLY by tools/harness/c01.py (25 checks; the five marked * have the partial theorems above):
+   Checks proved silent as a whole: 15 of 39 (the thirteen above, CheckHeader, CheckPreprocessorProtection).
+   TESTED ONLY by tools/harness/c01.py (24 checks; the five marked * have the partial theorems above):
      CheckAssignation CheckAssignationIndent CheckBlockStart CheckBrace* CheckCommentLineLen CheckControlStatement*
      CheckDeclaration CheckEnumVarDecl CheckFuncArgumentsName CheckFuncDeclaration* CheckFuncSpacing CheckGeneralSpacing
      CheckGlobalNaming CheckInHeader CheckNestLineIndent CheckNewlineIndent
-     CheckOperatorsSpacing CheckPreprocessorDefine CheckPreprocessorInclude CheckPreprocessorIndent CheckPrototypeIndent
+     CheckOperatorsSpacing CheckPreprocessorDefine CheckPreprocessorInclude CheckPrototypeIndent
      CheckStructNaming CheckUtypeDeclaration* CheckVariableDeclaration* CheckVariableIndent
    Why the five stay partial: CheckControlStatement's TOO_MANY_TAB / TOO_FEW_TAB part is left out by the translator
    (tools/translate_more.py, not ours); CheckBrace, CheckVariableDeclaration and CheckFuncDeclaration emit further codes
